@@ -623,8 +623,46 @@ fn base_run(name: &str, p: &mut Prng, pps: Option<usize>) -> RunSpec {
         fbc: *p.pick(&[0.0, 0.0, 0.0, 0.5, 1.0, 0.05]),
         fps: *p.pick(&[0.0, 0.0, 0.0, 0.5, 1.0, 0.1]),
         fbs: *p.pick(&[0.0, 0.0, 0.0, 0.5, 1.0, 0.05]),
-        seed: Some(p.next()),
+        seed: Some(gen_seed(p)),
     }
+}
+
+/// RNG seed of a run: one time in four an extreme value (the server's seed is derived from it
+/// by `wrapping_add(1)`, so `u64::MAX` wraps to 0)
+fn gen_seed(p: &mut Prng) -> u64 {
+    if p.chance(1, 4) {
+        *p.pick(&[u64::MAX, u64::MAX, u64::MAX - 1, 0, 1, 1u64 << 63])
+    } else {
+        p.next()
+    }
+}
+
+fn is_special_seed(s: Option<u64>) -> bool {
+    matches!(s, Some(x) if x == u64::MAX || x == u64::MAX - 1 || x == 0 || x == 1 || x == 1u64 << 63)
+}
+
+/// a machine whose behaviour depends on genuinely random sampling: wide Uniform timeouts and
+/// probabilistic transitions (so that two runs with different random streams differ)
+fn t_random_sampler(p: &mut Prng) -> Machine {
+    let ev = *p.pick(&[Event::NormalSent, Event::NormalRecv, Event::TunnelRecv, Event::TunnelSent]);
+    let s0 = State::new(enum_map! { e if e == ev => vec![Trans(1, 0.5), Trans(2, 0.25)], _ => vec![] });
+    let wide = |lo: f64, hi: f64| Dist { dist: DistType::Uniform { low: lo, high: hi }, start: 0.0, max: 0.0 };
+    let mut s1 = State::new(enum_map! {
+        Event::PaddingSent => vec![Trans(1, 0.5), Trans(0, 0.25), Trans(2, 0.25)],
+        e if e == ev => vec![Trans(1, 0.5)],
+        _ => vec![] });
+    s1.action = Some(Action::SendPadding { bypass: p.chance(1, 2), replace: p.chance(1, 2), timeout: wide(0.0, 200_000.0), limit: None });
+    let mut s2 = State::new(enum_map! {
+        Event::PaddingSent => vec![Trans(0, 0.5), Trans(1, 0.5)],
+        Event::TimerEnd => vec![Trans(1, 0.7)],
+        e if e == ev => vec![Trans(2, 0.3), Trans(1, 0.3)],
+        _ => vec![] });
+    s2.action = Some(if p.chance(1, 2) {
+        Action::SendPadding { bypass: false, replace: false, timeout: wide(1000.0, 3_000_000.0), limit: Some(wide(1.0, 6.0)) }
+    } else {
+        Action::UpdateTimer { replace: p.chance(1, 2), duration: wide(10.0, 500_000.0), limit: None }
+    });
+    machine(vec![s0, s1, s2], p, false)
 }
 
 /// Complete the list of runs of a case from its main run: determinism re-run, the unfiltered
@@ -720,6 +758,18 @@ pub fn gen_general(p: &mut Prng, id: String) -> SimCase {
     let mut c = SimCase { id, kind: "general".into(), mc, ms, trace, delay_ns, runs: vec![] };
     let pps = gen_pps(p);
     let main = base_run("main", p, pps);
+    if is_special_seed(main.seed) {
+        // make the repeat-run comparison meaningful: random sampling on the server (whose seed is derived)
+        if p.chance(3, 4) {
+            if c.ms.len() >= 3 {
+                c.ms.pop();
+            }
+            c.ms.push(t_random_sampler(p));
+        }
+        if p.chance(1, 4) && c.mc.len() < 3 {
+            c.mc.push(t_random_sampler(p));
+        }
+    }
     expand_runs(&mut c, main, p);
     c
 }
@@ -858,6 +908,34 @@ pub fn probes() -> Vec<SimCase> {
             trace: vec![(0, true), (200_000_000, true)],
             delay_ns: 1_000_000,
             runs: vec![probe_run(None)],
+        });
+    }
+    // regression: seed u64::MAX (the server's derived seed wraps to 0) with a server machine that samples a wide
+    // Uniform padding timeout: two runs must be identical
+    {
+        let s0 = State::new(enum_map! { Event::NormalSent => tr1(1), Event::NormalRecv => tr1(1), _ => vec![] });
+        let mut s1 = State::new(enum_map! { Event::PaddingSent => vec![Trans(1, 0.5), Trans(0, 0.5)], Event::NormalSent => tr1(1), _ => vec![] });
+        s1.action = Some(Action::SendPadding {
+            bypass: false,
+            replace: false,
+            timeout: Dist { dist: DistType::Uniform { low: 0.0, high: 1_000_000.0 }, start: 0.0, max: 0.0 },
+            limit: None,
+        });
+        let mut run = probe_run(None);
+        run.name = "main".into();
+        run.seed = Some(u64::MAX);
+        run.cont = true;
+        run.msi = 120;
+        let mut det = run.clone();
+        det.name = "det".into();
+        res.push(SimCase {
+            id: "probe-seed-max-server-random".into(),
+            kind: "probe".into(),
+            mc: vec![],
+            ms: vec![plain_machine(vec![s0, s1])],
+            trace: vec![(0, true), (1_000_000, false), (40_000_000, false), (90_000_000, true), (500_000_000, false)],
+            delay_ns: 1_000_000,
+            runs: vec![run, det],
         });
     }
     // F11: BlockOutgoing with duration 0 (no blocking active), without and with replace
